@@ -463,7 +463,10 @@ def _decide_bit_scan(prog: Program, col: Collector, ref: FuncRef, name: str, mm:
         i0 = [e for e in ft.of_kind("assign") if e.data.get("name") == acc and e.seq < lp.seq]
         if not i0 or i0[-1].value != ("const", 0):
             return bad("the accumulator does not start at 0")
-        if len(rets) != 1 or not isinstance(rets[0].node.value, ast.Name) or rets[0].node.value.id != acc or any(f[0] in ("while", "for", "if") for f in rets[0].ctx):
+        by_name = len(rets) == 1 and isinstance(rets[0].node.value, ast.Name) and rets[0].node.value.id == acc
+        # ... or through a helper that is read through: the returned TERM is the value the accumulator (start 0) has when the scan loop exits
+        by_term = len(rets) == 1 and rets[0].value[0] == "phi" and rets[0].value[1] == ("loopexit", uid) and rets[0].value[3] == ("const", 0)
+        if not (by_name or by_term) or any(f[0] in ("while", "for", "if") for f in rets[0].ctx):
             return bad("the function does not return the accumulator after the scan")
         return good(f"digit scan with {k}-bit digits: every bit of the id is counted exactly once")
     # players
@@ -617,6 +620,14 @@ def rule_k1_k2(prog: Program, col: Collector) -> None:
         gp = ("param", ref.positional_params()[0])
         npl = ("attr", gp, "number_of_players")
         loops = [e for e in ft.of_kind("loop") if e.iter is not None and is_call_to(e.iter, ALL) and e.iter[2] == (npl,)]
+        if not loops:
+            # a loop over a generator FUNCTION of the package is a stream this rule does not read through: not understood, not wrong
+            gens = [e for e in ft.of_kind("loop") if e.iter is not None and e.iter[0] == "call" and e.iter[1][0] == "global" and e.iter[1][1].startswith(P)
+                    and (lambda r: r is not None and any(isinstance(n, (ast.Yield, ast.YieldFrom)) for n in ast.walk(r.node)))(prog.find_func(e.iter[1][1]))]
+            if gens:
+                col.undecidable(ref.where(gens[0].node), ref.short, f"{fname.rsplit('.', 1)[1]} iterates over the generator function {short(gens[0].iter[1], 60)}: "
+                                "the coalitions it yields are not read through", rule="K1")
+                continue
         col.check(len(loops) == 1, ref.where(), ref.short, "the outer loop ranges over ALL coalitions of the game", construct=f"{kind}-outer",
                   necessity="a predicate that skips coalitions accepts games outside the class")
         if not loops:
